@@ -63,6 +63,7 @@ Classes(tr, g) ==
     P("QU", "unk",  "found",    "good", "query", g, One(tr), R2),   \* unknown field
     P("QP", "perr", "found",    "good", "query", g, One(tr), <<>>), \* parse error
     P("QN", "noop", "found",    "good", "query", g, One(tr), <<>>), \* no operation
+    P("QT", "tlim", "found",    "good", "query", g, One(tr), <<>>), \* valid, but more tokens than the parser limit
     P("QI", "inv",  "found",    "good", "query", g, One(tr), R2),   \* fails another rule
     P("QV", "vpan", "found",    "good", "query", g, One(tr), R2),   \* a validation rule panics on it
     P("QM", "ok",   "found",    "good", "mutation", g, One(tr), R2),      \* mutation (GET dispatches queries only)
@@ -78,6 +79,7 @@ Alphabet(exts) ==
                 P("QU", "unk",  "found",    "good", "query", NoG, One(tr), R2),   \* unknown field
                 P("QP", "perr", "found",    "good", "query", NoG, One(tr), <<>>) }  \* parse error
       more == { P("QN", "noop", "found",    "good", "query", NoG, One(tr), <<>>),  \* no operation
+                P("QT", "tlim", "found",    "good", "query", NoG, One(tr), <<>>),  \* valid, but more tokens than the parser limit
                 P("QI", "inv",  "found",    "good", "query", NoG, One(tr), R2),    \* fails another rule
                 P("QV", "vpan", "found",    "good", "query", NoG, One(tr), R2),    \* a validation rule panics on it
                 P("QS", "ok",   "found",    "good", "subscription", NoG, SubR(tr), R2) }  \* subscription: two events, then end
